@@ -7,6 +7,7 @@ package props
 // inputs, and typed-variant (core.Map, []string, int) agreement.
 
 import (
+	"reflect"
 	"testing"
 
 	"github.com/Comcast/rulio/core"
@@ -272,7 +273,19 @@ func runC05(c c05Case) *vlib.Outcome {
 		}
 		if r.used > 0 {
 			o.Label("typed-variant")
+			tp0, td0, ti0 := typedCopy(tp), typedCopy(td), typedCopy(ti)
 			tgot, terr := core.Match(nil, tp, td, ti)
+			// the Go-typed pattern, data and initial bindings are the
+			// caller's as well: same values of the same types afterwards
+			if !reflect.DeepEqual(tp, tp0) {
+				o.Fail("MUTATED_PATTERN", "the Go-typed pattern changed from %#v to %#v", tp0, tp)
+			}
+			if !reflect.DeepEqual(td, td0) {
+				o.Fail("MUTATED_DATA", "the Go-typed data changed from %#v to %#v", td0, td)
+			}
+			if !reflect.DeepEqual(ti, ti0) {
+				o.Fail("MUTATED_BINDINGS", "the Go-typed initial bindings changed from %#v to %#v (pattern %s data %s)", ti0, ti, vlib.JSON(pat0), vlib.JSON(data0))
+			}
 			if terr != nil {
 				o.Fail("TYPED_ERROR", "typed variant of pattern %s data %s (mask %d) failed: %v", vlib.JSON(pat0), vlib.JSON(data0), c.Typing, terr)
 			} else {
@@ -284,6 +297,46 @@ func runC05(c c05Case) *vlib.Outcome {
 		}
 	}
 	return o
+}
+
+// typedCopy: a deep copy that keeps every Go type (core.Map stays core.Map,
+// []string stays []string).
+func typedCopy(x interface{}) interface{} {
+	if x == nil {
+		return nil
+	}
+	return typedCopyValue(reflect.ValueOf(x)).Interface()
+}
+
+func typedCopyValue(v reflect.Value) reflect.Value {
+	switch v.Kind() {
+	case reflect.Map:
+		if v.IsNil() {
+			return v
+		}
+		m := reflect.MakeMapWithSize(v.Type(), v.Len())
+		for _, k := range v.MapKeys() {
+			m.SetMapIndex(k, typedCopyValue(v.MapIndex(k)))
+		}
+		return m
+	case reflect.Slice:
+		if v.IsNil() {
+			return v
+		}
+		s := reflect.MakeSlice(v.Type(), v.Len(), v.Len())
+		for i := 0; i < v.Len(); i++ {
+			s.Index(i).Set(typedCopyValue(v.Index(i)))
+		}
+		return s
+	case reflect.Interface:
+		if v.IsNil() {
+			return v
+		}
+		c := reflect.New(v.Type()).Elem()
+		c.Set(typedCopyValue(v.Elem()))
+		return c
+	}
+	return v
 }
 
 func TestC05(t *testing.T) {
